@@ -29,25 +29,25 @@ CLAIMED = {
 }
 CLAIMED.update({
  "C02": dict(
-   text="Partial, solver-decided necessary conditions of the pmf claim, where reflection / off-by-one / method-switch bugs live: Hypergeometric symmetry reductions map the reduced support onto the documented one (all K,n<=N in bounded and extreme ranges); Binomial method switch and p->1-p flip, BINV state r = q^n for every n (incl. n >= 2^31); StandardGeometric's exact word-interval law; Zipf's normalising constant on both sides of s = 1. The acceptance-probability parts (BTPE, PD, H2PE, rejection-inversion) are law statements outside the technique (level_note).",
+   text="Partial, solver-decided necessary conditions of the pmf claim, where reflection / off-by-one / method-switch bugs live: Hypergeometric symmetry reductions map the reduced support onto the documented one (all K,n<=N in bounded and extreme ranges); Binomial method switch and p->1-p flip, BINV state r = q^n for every n (incl. n >= 2^31); the H2PE centre equals the mode floor((k+1)(n1+1)/(N+2)) in exact integer arithmetic and H2PE is used iff mode - max(0,k-n2) >= 10 (all K,n<=N = 43 quick; N<=63 and N<=255 thorough); StandardGeometric's exact word-interval law; Zipf's normalising constant on both sides of s = 1. The acceptance-probability parts (BTPE, PD, H2PE, rejection-inversion) are law statements outside the technique (level_note).",
    design="§0.4, §7 C02", technique="Kani/CBMC bounded model checking of constructor state and bit-level samplers; free logging stubs for the algebraic structure around libm calls",
    note="NOT decided: that BINV/BTPE/PD/HIN/H2PE/rejection-inversion acceptance tests realise the pmf (probabilities through ln/exp/pow). "),
  "C05": dict(
-   text="Partial: the one state-carrying loop that can be encoded is bounded by an unwinding assertion that the solver proves (BINV walk <= 112 steps for every first word, from concrete constructor states incl. a deliberately sticking one); every rejection loop in the C03/C12 harnesses is bounded through the RNG word budget with unwinding assertions ON, which proves each trial consumes >= 1 word and lists the words per trial. Mean acceptance rates are probabilities and are not decided.",
+   text="Partial: the one state-carrying loop that can be encoded is bounded by an unwinding assertion that the solver proves (BINV walk <= 112 steps for every first word, from concrete constructor states incl. a deliberately sticking one); the Hypergeometric HIN walk is proved to end within the support for concrete parameter sets ((25,10,5), (10,5,3) quick; (52,4,5) thorough) and every uniform draw (incl. 1-2^-53, which exceeds the rounded pmf sum for some of them); every rejection loop in the C03/C12 harnesses is bounded through the RNG word budget with unwinding assertions ON, which proves each trial consumes >= 1 word and lists the words per trial. Mean acceptance rates are probabilities and are not decided.",
    design="§0.4, §7 C05", technique="Kani/CBMC unwinding assertions (proved loop bounds) + word-budget bounded rejection loops; counterexample rebuilt from the CBMC trace and replayed natively (hang detection)",
-   note="NOT decided: mean number of trials / acceptance rate not collapsing; BTPE step 5.1 and H2PE step 4.1 walks; HIN loop length. "),
+   note="NOT decided: mean number of trials / acceptance rate not collapsing; BTPE step 5.1 and H2PE step 4.1 walks; HIN loop length for parameter sets other than those concrete ones. "),
  "C07": dict(
-   text="For each location/scale family the sampler's algebra around its parameter-free standard quantity g (a libm result or a ziggurat draw) is checked for every parameter value: sample == loc + scale*g bit-for-bit, the libm arguments are the documented ones, the same number of words is consumed whatever the parameters, from_zscore(z) == mean + std_dev*z, precomputed reciprocals equal the documented transform (on concrete shapes). g ranges over a small value set supplied by free logging stubs (any value would do for pure algebra).",
+   text="For each location/scale family the sampler's algebra around its parameter-free standard quantity g (a libm result or a ziggurat draw) is checked for every parameter value: sample == loc + scale*g bit-for-bit, the libm arguments are the documented ones, the same number of words is consumed whatever the parameters, from_zscore(z) == mean + std_dev*z, precomputed reciprocals equal the documented transform (on concrete shapes). g ranges over a small value set supplied by free logging stubs (any value would do for pure algebra). Gamma (all three internal variants) is checked as a two-run relation on one stream: sample(shape, 2^j) == 2^j * sample(shape, 1) bit-for-bit with equal word counts, under deterministic stand-ins for ziggurat/ln/pow.",
    design="§0.4, §7 C07", technique="Kani/CBMC bounded model checking with free logging stubs for libm/ziggurat (uninterpreted standard draw); native replay evaluates the same assertion with the real libm",
-   note="g restricted to {0,-0,+-1,2,1/2,3/4,-3}; Gamma, InverseGaussian, SkewNormal, Triangular, Pert not covered. "),
+   note="g restricted to {0,-0,+-1,2,1/2,3/4,-3}; Gamma only for scales 2^j and shapes 1/2, 1, 5/2 within one trial; InverseGaussian, Triangular, Pert not covered (their scale relation needs a homogeneous sqrt model). "),
  "C08": dict(
    text="new() on every weight vector of a small length: documented error variants exactly; on Ok the alias table satisfies the mass identity odds[i] + sum_{alias[j]=i}(sum - odds[j]) == len*w_i (so the law is exactly w_i/sum and zero-weight indices carry no mass); weights() returns the vector; sample() == `column if threshold < odds[column] else alias[column]` with the real rand Uniform draws; vectors longer than W::MAX and longer than the 32-element summation block are covered by dedicated harnesses; float weights are out of reach (level_note).",
    design="§0.4, §7 C08", technique="Kani/CBMC bounded model checking of the alias construction against the mass identity, lengths <= 3 (quick) / 4 (thorough)",
    note="NOT decided: float weight types (rand's Uniform::<F>::new_bounded loop cannot be bounded by the solver); lengths > 4 except the two dedicated harnesses. "),
  "C11": dict(
-   text="Partial: Dirichlet::new accepts exactly the documented domain, picks stick-breaking iff all alpha <= 0.1, and its Beta chain is Beta(alpha_i, sum of later alphas) (the reversed cumulative sum index error the property describes) for every alpha vector of length 2..4; the stick-breaking sampler writes every output component (buffer pre-filled with NaN) with values in [0,1] (thorough tier, concrete alpha). Marginal/conditional Beta laws are law statements and are not decided.",
-   design="§0.4, §7 C11", technique="Kani/CBMC bounded model checking of constructor structure (all alpha bit patterns, len <= 4) and of the stick-breaking sampler",
-   note="NOT decided: Beta marginals; sum-to-one within ulps; lengths 5..64; gamma path sampling. "),
+   text="Partial: Dirichlet::new accepts exactly the documented domain, picks stick-breaking iff all alpha <= 0.1, and its Beta chain is Beta(alpha_i, sum of later alphas) (the reversed cumulative sum index error the property describes) for every alpha vector of length 2..4; on length-17 vectors (sixteen entries 0.09, one arbitrary entry at an arbitrary position) the method switch, sampler counts and algorithm BC for every stick-breaking Beta (tail sums cross 1); the stick-breaking sampler writes every output component (buffer pre-filled with NaN), 3 components with structure-only stubs and 4 components with ln/exp replaced by arbitrary finite / non-negative values: every component in [0,1]. Marginal/conditional Beta laws are law statements and are not decided.",
+   design="§0.4, §7 C11", technique="Kani/CBMC bounded model checking of constructor structure (all alpha bit patterns, len <= 4; len 17 with one free entry) and of the stick-breaking sampler",
+   note="NOT decided: Beta marginals; sum-to-one within ulps; lengths 5..64 except the length-17 structure harness; gamma path sampling (a 9-component harness ran out of memory in propositional reduction: the Marsaglia-Tsang loops of all samplers are unwound although alpha = 1 never enters them). "),
  "C12": dict(
    text="Partial: for all four samplers and both float types: a trial consumes exactly 2 (3 for the ball) draws, the acceptance test is exactly decided in the regions |x|<=1/2 (must accept) and |x|>=3/4 (must reject), disc/ball return exactly the accepted candidate, circle/sphere first-trial outputs are NaN-free with the documented sign structure. Uniformity w.r.t. arc length/area is a law statement and is not decided.",
    design="§0.4, §7 C12", technique="Kani/CBMC bounded model checking over all candidate words (two trials), acceptance decided by regions",
